@@ -180,7 +180,7 @@ def via_history(cfg, rng, variant=None, which=None):
     for k in ('rc', 'zs', 'rs', 'zc'):
         if k in cfg:
             c0[k] = [cfg[k][0]] + [x * sc for x in cfg[k][1:]]
-    extra = rng.random() < 0.4
+    extra = rng.random() < 0.4 and not (variant == 'C' and isinstance(which, str))      # (single-change histories change nothing else)
     if extra:
         for k in ('rc', 'zs', 'rs', 'zc'):
             if k in c0:
@@ -396,6 +396,7 @@ def corpus_objects(orders=None, histories=True):
                 q, msgs = via_history(dict(cfg), hr, variant=variant, which=wh)
             except Exception:
                 continue
-            if admissible(q, msgs):
-                out.append((dict(cfg), q))
+            # the same inputs as an admissible fresh object: kept whatever the history made of it (a history that leaves the object
+            # unconverged or non-finite is exactly what the predictions should see)
+            out.append((dict(cfg), q))
     return out
